@@ -77,6 +77,9 @@ pub struct GenCfg {
     /// share of purges that are a send followed at once by the purge (see `Op::SendThenPurge`)
     #[serde(default)]
     pub send_then_purge_chance: f64,
+    /// share of clean restarts that directly follow a send (see `Op::SendThenRestart`)
+    #[serde(default)]
+    pub send_then_restart_chance: f64,
 }
 
 impl Default for GenCfg {
@@ -104,6 +107,7 @@ impl Default for GenCfg {
             codec_corners: false,
             revocation_chance: 0.0,
             send_then_purge_chance: 0.0,
+            send_then_restart_chance: 0.0,
         }
     }
 }
@@ -162,6 +166,8 @@ pub struct Gen {
     pub name_counter: u32,
     /// operations that must follow the one just generated (directed arms)
     pub pending: std::collections::VecDeque<Op>,
+    /// set while `permission_probe` draws operations: directed arms must not nest
+    pub in_probe: bool,
 }
 
 impl Gen {
@@ -177,7 +183,7 @@ impl Gen {
                 rng.bytes(len)
             })
             .collect();
-        Gen { rng, cfg, next_id: 1000, used_ids: Vec::new(), salt: 0, keys, name_counter: 0, pending: Default::default() }
+        Gen { rng, cfg, next_id: 1000, used_ids: Vec::new(), salt: 0, keys, name_counter: 0, pending: Default::default(), in_probe: false }
     }
 
     pub fn fresh_name(&mut self, prefix: &str) -> String {
@@ -265,7 +271,9 @@ impl Gen {
     /// A request that needs a permission (data path, catalogue, query), issued by connection `c`.
     pub fn permission_probe(&mut self, model: &Model, c: usize) -> Option<Op> {
         for _ in 0..12 {
+            self.in_probe = true;
             let op = self.next_raw(model);
+            self.in_probe = false;
             let wanted = matches!(
                 op,
                 Op::Send { .. } | Op::Poll { .. } | Op::Flush { .. } | Op::StoreOffset { .. } | Op::GetOffset { .. } | Op::GetTopic { .. } | Op::GetTopics { .. } | Op::GetStream { .. } | Op::GetStreams { .. }
@@ -356,6 +364,14 @@ impl Gen {
             }
             (3, _) => Op::RunJob(Job::Save),
             (4, _) => Op::RunJob(Job::Maintain),
+            (5, Some(t)) if self.rng.chance(self.cfg.send_then_restart_chance) && !model.streams[&t.0].topics[&t.1].partitions.is_empty() => {
+                let (s, tt) = self.refs(&t);
+                let n = model.streams[&t.0].topics[&t.1].partitions.len() as u32;
+                let k = *self.rng.pick(&[1u32, 2, 3, 5, 10, 20]);
+                let msgs: Vec<MsgSpec> = (0..k).map(|_| self.msg()).collect();
+                let kind = if self.rng.chance(0.5) { StopKind::GracefulImmediate } else { StopKind::GracefulDrained };
+                Op::SendThenRestart { stream: s, topic: tt, partition: 1 + self.rng.below(n as u64) as u32, msgs, kind }
+            }
             (5, _) => Op::Restart(if self.rng.chance(0.5) { StopKind::GracefulImmediate } else { StopKind::GracefulDrained }),
             (6, _) => Op::Restart(StopKind::Kill),
             (7, _) => Op::RestartLosingIndexes(StopKind::GracefulDrained),
